@@ -703,17 +703,57 @@ CONEQP_SCENARIOS = {
     'userkkt+partial-initvals': {'kktsolver': 'callable',
                                  'initvals': ['x', 'z']},
 }
+def relgap_assigned(ex, st, fid, v, s):
+    """every assignment `relgap = ...` in a solver follows the documented
+    definition: gap / -pcost if pcost < 0, gap / dcost if dcost > 0, None
+    otherwise (pcost, dcost, gap: the variables of those names at that
+    point)"""
+    fr = st.frames[fid]
+    if not all(k in fr for k in ('gap', 'pcost', 'dcost')):
+        return
+    try:
+        g = ex.num(st, fr['gap'])
+        p_ = ex.num(st, fr['pcost'])
+        d_ = ex.num(st, fr['dcost'])
+    except Exception:
+        return
+    real = lambda kt: z3.ToReal(kt[1]) if kt[0] == 'int' else kt[1]
+    gv, pv, dv = real(g), real(p_), real(d_)
+    fdiv = z3.Function('fdiv', z3.RealSort(), z3.RealSort(), z3.RealSort())
+    if v is None:
+        goal = z3.And(z3.Not(pv < 0), z3.Not(dv > 0))
+    else:
+        try:
+            rv = real(ex.num(st, v))
+        except Exception:
+            ex.oblige(st, 'relgap-definition', False, s,
+                      'relgap is assigned a number or None',
+                      extra={'prop': FPROP.get(ex.fname, 'C01')})
+            return
+        goal = z3.If(pv < 0, rv == fdiv(gv, -pv), z3.And(
+            dv > 0, rv == fdiv(gv, dv)))
+    ex.oblige(st, 'relgap-definition', goal, s,
+              'relgap = gap / -pcost if pcost < 0, gap / dcost if dcost > 0, '
+              'None otherwise (assignment at line %s)' % s.lineno,
+              extra={'prop': FPROP.get(ex.fname, 'C01')})
+
+
+FPROP = {'conelp': 'C01', 'coneqp': 'C03', 'cpl': 'C04'}
+
+
 FUNCS = {
     'conelp': {'setup': conelp_setup, 'scenarios': CONELP_SCENARIOS,
                'on_outcomes': conelp_on_outcomes,
-               'config': {'unroll': 4}},
+               'config': {'unroll': 4,
+                          'watch_assign': {'relgap': relgap_assigned}}},
     'conelp#algebra': {'function': 'conelp', 'setup': conelp_setup,
                        'scenarios': {'defaults': {}},
                        'on_outcomes': conelp_on_outcomes,
                        'config': {'unroll': 4, 'algebra': True}},
     'coneqp': {'setup': coneqp_setup, 'scenarios': CONEQP_SCENARIOS,
                'on_outcomes': coneqp_on_outcomes,
-               'config': {'unroll': 4}},
+               'config': {'unroll': 4,
+                          'watch_assign': {'relgap': relgap_assigned}}},
 }
 
 
